@@ -312,7 +312,9 @@ func sameValue(a, b ssa.Value) bool {
 // ---------------------------------------------------------------------------------------------
 // R2.2
 
-var methodClasses = []string{"GET", "HEAD", "POST", "PUT", "DELETE", "PATCH"}
+// method classes: HTTP method tokens are case-sensitive and Go's server forwards any token, while
+// the handlers lower-case r.Method — so non-canonical spellings are classes of their own.
+var methodClasses = []string{"GET", "HEAD", "POST", "PUT", "DELETE", "PATCH", "post", "Put", "delete"}
 
 type dataType struct {
 	Named *types.Named
@@ -476,4 +478,142 @@ func ruleR2_2(r *Run) {
 }
 
 func ruleR2_3(r *Run) { ruleR2_3impl(r) }
+
+func init() {
+	register(ruleDef{ID: "R2.5", Prop: "C02", Tier: "quick", Floor: 2,
+		Title: "admin exception integrity: the adminPriv flag every gate consults can be true only when an admin token is configured and the request presents it",
+		Fn:    ruleR2_5})
+	register(ruleDef{ID: "R2.6", Prop: "C02", Tier: "quick", Floor: 3,
+		Title: "handlers of the child-creating node routes (allowed through the locked-node gate) never pass the request's own uuid to a datastore function that changes node or repo state, except NewVersion",
+		Fn:    ruleR2_6})
+}
+
+func ruleR2_5(r *Run) {
+	w := r.W
+	// writers of Env["adminPriv"]
+	n := 0
+	for _, f := range w.RepoFuncs {
+		if relPkg(pkgPathOf(f)) != "server" {
+			continue
+		}
+		for _, b := range f.Blocks {
+			for _, in := range b.Instrs {
+				mu, ok := in.(*ssa.MapUpdate)
+				if !ok {
+					continue
+				}
+				k, ok := constString(stripConv(mu.Key))
+				if !ok || k != "adminPriv" {
+					continue
+				}
+				n++
+				// (a) no token configured ⇒ the stored flag is false
+				env := &AEnv{Atom: func(v ssa.Value) (AVal, bool) {
+					if isGlobalLoad(v, "server", "adminToken") {
+						return aStr(""), true
+					}
+					return unknown, false
+				}}
+				s := runSCCP(f, env)
+				val := s.Eval(stripConv(mu.Value))
+				r.check(val.K == ABool && !val.B, fname(f)+":no-token-no-admin",
+					"with no admin token configured the adminPriv flag stored is the constant false",
+					"with an empty (unconfigured) admin token the adminPriv flag is "+val.String()+": a request can obtain admin rights — and bypass every committed-node gate — without a secret", w.pos(mu.Pos()))
+				// (b) the flag derives from an equality with the configured token
+				okCmp := false
+				for _, rv := range roots(stripConv(mu.Value), f) {
+					if bo, ok := rv.V.(*ssa.BinOp); ok && bo.Op == token.EQL {
+						if isGlobalLoad(bo.X, "server", "adminToken") || isGlobalLoad(bo.Y, "server", "adminToken") {
+							okCmp = true
+						}
+					} else if c, ok := rv.V.(*ssa.Const); ok && constVal(c).K == ABool && !constVal(c).B {
+						// false default
+					} else {
+						okCmp = false
+						break
+					}
+				}
+				r.check(okCmp, fname(f)+":admin-iff-token-equal", "adminPriv is false or the result of comparing the request's token with the configured one",
+					"adminPriv can be set from something other than equality with the configured admin token", w.pos(mu.Pos()))
+			}
+		}
+	}
+	if n == 0 {
+		r.violation("adminPriv-writer", "no function of package server sets Env[\"adminPriv\"]: the gates read an unset flag", "-")
+	}
+}
+
+// isRequestUUID: v derives from c.Env["uuid"].
+func isRequestUUID(v ssa.Value, fn *ssa.Function) bool {
+	rs := roots(v, fn)
+	if len(rs) == 0 {
+		return false
+	}
+	for _, rv := range rs {
+		x := rv.V
+		if ex, ok := x.(*ssa.Extract); ok {
+			x = ex.Tuple
+		}
+		ta, ok := x.(*ssa.TypeAssert)
+		if !ok {
+			return false
+		}
+		if _, key, ok := mapLookupConstKey(ta); !ok || key != "uuid" {
+			return false
+		}
+	}
+	return true
+}
+
+func ruleR2_6(r *Run) {
+	w := r.W
+	rt := readRouteTable(w)
+	if rt == nil {
+		r.undecided("routes", "route table not found")
+		return
+	}
+	// datastore functions that change persistent node/repo state: reach repoT.save or a store to a nodeT field
+	save := w.method("datastore", "repoT", "save")
+	mutates := w.newReach(func(c ssa.CallInstruction) bool {
+		return save != nil && c.Common().StaticCallee() == save
+	}, nil)
+	for _, m := range rt.Muxes {
+		for _, ro := range m.Routes {
+			if ro.Handler == nil || !strings.HasPrefix(ro.Pattern, "/api/node/") || !childCreatingActions[lastSegment(ro.Pattern)] {
+				continue
+			}
+			switch ro.Method {
+			case "Get", "Head":
+				continue
+			}
+			bad := ""
+			nCalls := 0
+			for _, c := range calls(ro.Handler) {
+				callee := staticCallee(c)
+				if callee == nil || relPkg(pkgPathOf(callee)) != "datastore" {
+					continue
+				}
+				usesReq := false
+				for _, a := range c.Common().Args {
+					if typeIs(a.Type(), "dvid", "UUID") && isRequestUUID(a, ro.Handler) {
+						usesReq = true
+					}
+				}
+				if !usesReq {
+					continue
+				}
+				nCalls++
+				if callee.Name() == "NewVersion" {
+					continue // creating a child of the committed node is the allowed effect
+				}
+				if mutates.From(callee) {
+					bad = fmt.Sprintf("%s(request uuid) at %s", fname(callee), w.pos(c.Pos()))
+				}
+			}
+			r.check(bad == "", "route:POST "+ro.Pattern+":parent-untouched",
+				fmt.Sprintf("%d datastore calls take the request uuid; none but NewVersion changes state", nCalls),
+				"the child-creating route "+ro.Pattern+" is let through the locked-node gate, and its handler applies a state-changing datastore function to the committed parent itself: "+bad, ro.Pos)
+		}
+	}
+}
 func ruleR2_4(r *Run) { ruleR2_4impl(r) }
